@@ -239,9 +239,45 @@ fn file_msg(rng: &mut Rng, i: usize, shape: u32, pay_len: usize) -> Orig {
     o
 }
 
-fn run_file(t: &mut Trace, case: u64, rng: &mut Rng, adlt: &str, tmp: &str, n: usize, n_big: usize) {
+/// messages for a "boundary" file: small fillers that sum up to exactly `bufcap - r` bytes, then a maximal message, then a few
+/// small ones - so the maximal message starts when exactly `r` bytes of convert's first (full) buffer fill are left. Sweeping
+/// r around the reader's low mark exercises the "a whole message is always visible" configuration of the call site.
+fn boundary_msgs(rng: &mut Rng, bufcap: usize, r: usize) -> Vec<Orig> {
+    let target = bufcap - r;
     let mut msgs = Vec::new();
-    for i in 0..n {
+    let mut sum = 0usize;
+    let push = |msgs: &mut Vec<Orig>, rng: &mut Rng, size: usize| {
+        let i = msgs.len();
+        msgs.push(file_msg(rng, i, 0, size - 20)); // shape 0: 16 bytes storage header + 4 bytes standard header + payload
+    };
+    while target - sum > 1300 {
+        let size = 20 + rng.below(600) as usize;
+        push(&mut msgs, rng, size);
+        sum += size;
+    }
+    let rem = target - sum;
+    push(&mut msgs, rng, rem / 2);
+    push(&mut msgs, rng, rem - rem / 2);
+    let shape = rng.below(32) as u32;
+    let max = 65535 - (4 + 4 * (shape & 1) + 2 * (shape & 2) + (shape & 4) + 10 * ((shape >> 3) & 1)) as usize;
+    let i = msgs.len();
+    let big_pay = max - rng.below(3) as usize;
+    msgs.push(file_msg(rng, i, shape, big_pay));
+    for _ in 0..5 {
+        let i = msgs.len();
+        let (sh, pl) = (rng.below(32) as u32, rng.below(300) as usize);
+        msgs.push(file_msg(rng, i, sh, pl));
+    }
+    msgs
+}
+
+fn run_file(t: &mut Trace, case: u64, rng: &mut Rng, adlt: &str, tmp: &str, n: usize, n_big: usize, boundary: Option<(usize, usize)>) {
+    let mut msgs = Vec::new();
+    if let Some((bufcap, r)) = boundary {
+        msgs = boundary_msgs(rng, bufcap, r);
+    }
+    let n = if boundary.is_some() { msgs.len() } else { n };
+    for i in 0..(if boundary.is_some() { 0 } else { n }) {
         let shape = if i < 64 { (i % 32) as u32 } else { rng.below(32) as u32 };
         let max = 65535 - (4 + 4 * (shape & 1) + 2 * (shape & 2) + (shape & 4) + 10 * ((shape >> 3) & 1)) as usize;
         let step = (n / n_big.max(1)).max(1);
@@ -257,7 +293,7 @@ fn run_file(t: &mut Trace, case: u64, rng: &mut Rng, adlt: &str, tmp: &str, n: u
         };
         msgs.push(file_msg(rng, i, shape, pay_len));
     }
-    t.ev(json!({"ev":"reset","case":case,"hdr":{"kind":"file","n":n}}));
+    t.ev(json!({"ev":"reset","case":case,"hdr":{"kind":"file","n":n,"boundary_r":boundary.map(|b| b.1 as i64).unwrap_or(-1)}}));
     let (fin, fout, fout2) = (format!("{}/c02_{}_in.dlt", tmp, case), format!("{}/c02_{}_out.dlt", tmp, case), format!("{}/c02_{}_out2.dlt", tmp, case));
     let mut all = Vec::new();
     for m in &msgs {
@@ -368,10 +404,25 @@ fn main() {
         let adlt = a.str("--adlt", "adlt");
         let tmp = a.str("--tmp", ".");
         for _ in 0..n_files {
-            run_file(&mut t, case, &mut rng, &adlt, &tmp, a.num("--file-msgs", 120) as usize, a.num("--file-big", 4) as usize);
+            run_file(&mut t, case, &mut rng, &adlt, &tmp, a.num("--file-msgs", 120) as usize, a.num("--file-big", 4) as usize, None);
             case += 1;
         }
     }
+    // boundary files: --boundary lo:hi:step (values of r), --bufcap = capacity of convert's read buffer
+    let mut n_boundary = 0u64;
+    if let Some(b) = a.get("--boundary") {
+        let v: Vec<usize> = b.split(':').map(|x| x.parse().unwrap()).collect();
+        let adlt = a.str("--adlt", "adlt");
+        let tmp = a.str("--tmp", ".");
+        let bufcap = a.num("--bufcap", 512 * 1024) as usize;
+        let mut r = v[0];
+        while r <= v[1] {
+            run_file(&mut t, case, &mut rng, &adlt, &tmp, 0, 0, Some((bufcap, r)));
+            case += 1;
+            n_boundary += 1;
+            r += v[2].max(1);
+        }
+    }
     t.flush();
-    println!("{}", json!({"cases": case, "lines": t.lines, "shapes": shapes.len(), "payload_zero": n_zero, "len_max": n_max}));
+    println!("{}", json!({"cases": case, "lines": t.lines, "shapes": shapes.len(), "payload_zero": n_zero, "len_max": n_max, "boundary_files": n_boundary}));
 }
